@@ -213,6 +213,7 @@ def case_fcom(ctx, nr, nt, nfunc):
     ctx.explored(ex, len(paths))
     kvars = [K[i, j, p] for i in range(nr) for j in range(nr) for p in range(nt)]
     rp = lambda m: replay_fcom(m(ri), [float(m(e)) for e in kvars], nfunc, nr, nt)
+    ctx.fallback = rp
     fk = (1 - ri * ri) / nr
     S = piston_rows(nr)
     mm = nr - 1
@@ -350,6 +351,7 @@ def case_azimuthal(ctx, nord, npp):
         az = numpy.asarray(kl.gkl_azimuthal(nord, npp), dtype=object)
     ctx.paths += 1
     rp = lambda m: replay_azimuthal(nord, npp)
+    ctx.fallback = rp
     tol = Fr(1, 10 ** 11)
 
     def close(a, b):
@@ -398,6 +400,7 @@ def case_radii(ctx, nr):
         r = numpy.asarray(kl.gkl_radii(ri, nr), dtype=object)
     ctx.paths += 1
     rp = lambda m: replay_radii(m(ri), nr)
+    ctx.fallback = rp
     if r.shape != (nr,):
         ctx.prove("nr radii", pre, z3.BoolVal(False), replay=rp, axioms=False)
         return
@@ -437,6 +440,7 @@ def case_piston(ctx, nr):
         s = numpy.asarray(kl.piston_orth(nr), dtype=object)
     ctx.paths += 1
     rp = lambda m: replay_piston(nr)
+    ctx.fallback = rp
     g = []
     for a in range(nr):
         for b in range(a + 1):
